@@ -11,6 +11,7 @@ import z3
 
 from .values import *  # noqa
 
+DEADLINE = [None]       # wall-clock deadline of the running contract (set by driver.run_contract); past it every solver call gives up
 ASSUMED_SITES = {}     # (file, line) -> source text: facts a contract file assumes directly (ctx.assume / vc.assume), reported in the evidence
 
 
@@ -111,6 +112,8 @@ class Ctx(object):
     def _check(self, *extra):
         import time
         t0 = time.time()
+        if DEADLINE[0] is not None and t0 > DEADLINE[0]:
+            raise Unsupported("wall-time budget of the contract exhausted")
         self.solver.push()
         for e in extra:
             self.solver.add(e)
@@ -832,6 +835,11 @@ class Interp(object):
         if m is None:
             raise Unsupported("statement %s" % type(st).__name__)
         self.cur_line = getattr(st, 'lineno', 0)
+        self._nstmt = getattr(self, '_nstmt', 0) + 1
+        if self._nstmt % 256 == 0 and DEADLINE[0] is not None:
+            import time
+            if time.time() > DEADLINE[0]:
+                raise Unsupported("wall-time budget of the contract exhausted")
         return m(st, env)
 
     def exec_Expr(self, st, env):
